@@ -158,6 +158,15 @@ def run(ctx):
             for method in METHODS:
                 do_case(ctx, {"dim": 2, "method": method, "axis": 0, "m": [list(cells[0:3]), list(cells[3:6])]})
         ctx.notes.append("exhaustive: all 3x3 arrays over {-1,0,1,2} (shadow, axis 0); all 2x3 arrays over {-2..2} x 7 methods")
+    for _ in range(30 if ctx.quick else 200):
+        # arrays without a single non-zero entry (nothing is prioritised), every shape and axis: the answer has the shape the
+        # axis leaves, all zeros
+        nr, nc = rng.choice([(1, 3), (2, 3), (3, 1), (3, 2), (1, 1), (2, 4), (4, 2)])
+        case = {"dim": 2, "method": rng.choice(["prio", "rank", "shadow", "first", "last", "prio", "rank"]), "axis": rng.choice([0, 1]),
+                "m": [[0] * nc for _ in range(nr)]}
+        if rng.random() < 0.3: case["layout"] = rng.choice(["T", "S"])
+        ctx.tags["all-zero-array"] += 1
+        do_case(ctx, case)
     n = (2000 if ctx.quick else 20000) * (3 if ctx.search else 1)
     for _ in range(n):
         r = rng.random()
